@@ -134,7 +134,7 @@ Definition tags_if_found (st : list bytes) (fk fv : bool) (wc : wcols) (old : li
 Fixpoint fill (f : Z -> wnode -> wnode) (l : list Z) (prev : Z) (index : nat) (nodes : list wnode)
   : result (list wnode) :=
   match l with
-  | [] => Ok nodes
+  | [] => full nodes index
   | v :: r =>
       let prev' := wrap64 (sint64 v + prev) in
       nodes' <- upd nodes index (f prev') ;;; fill f r prev' (S index) nodes'
@@ -200,8 +200,9 @@ Definition set_ref_type (ref t : Z) (m : member) :=
 Fixpoint members_loop (st : list bytes) (roles memids types : list Z) (memid : Z) (index : nat)
   (ms : list member) : result (list member) :=
   match roles with
-  | [] => Ok ms
+  | [] => full ms index
   | r :: rr =>
+      _ <- upd ms index (fun m => m) ;;;        (* if index >= len(members) *)
       role <- idx st (int32 r) ;;;
       ms1 <- upd ms index (set_role role) ;;;
       match memids with
@@ -446,8 +447,8 @@ Definition scan_dense (c : cfg) (p : bparams) (dc : dcols) (m : msg) (q : list o
 (* ---------- scanPrimitiveGroup ---------- *)
 Record gst := mkG { g_d : dstate; g_way : way; g_rel : relation; g_q : list obj }.
 
-(* outcome of a plain Node group: explicit panic("nodes are not supported") *)
-Definition plain_nodes {A} : result A := Panic.
+(* outcome of a plain Node group: an error (fix 887d3f2; before it an explicit panic) *)
+Definition plain_nodes {A} : result A := Err E_PLAIN.
 
 Definition reset_way (w : way) : way := mkWay 0 info0 (firstn 0 (w_tags w)) (firstn 0 (w_nodes w)).
 Definition reset_rel (r : relation) : relation := mkRel 0 info0 (firstn 0 (r_tags r)) (firstn 0 (r_members r)).
